@@ -38,6 +38,8 @@ Core == {
   [c |-> "deref_size", space |-> FALSE, size |-> 1], [c |-> "deref_size", space |-> TRUE, size |-> 4],
   [c |-> "plus_uconst", v |-> B8(0)], [c |-> "plus_uconst", v |-> B8(128)],
   [c |-> "reg", reg |-> 0], [c |-> "reg", reg |-> 31], [c |-> "reg", reg |-> 32], [c |-> "reg", reg |-> 1000],
+  [c |-> "reg", reg |-> 256], [c |-> "reg", reg |-> 287], [c |-> "reg", reg |-> 288], [c |-> "reg", reg |-> 4101],
+  [c |-> "breg", reg |-> 256, off |-> B8(0)], [c |-> "breg", reg |-> 543, off |-> M1],
   [c |-> "implicit_value", data |-> <<>>], [c |-> "implicit_value", data |-> <<1, 2, 3>>],
   [c |-> "piece", n |-> B8(0)], [c |-> "piece", n |-> B8(1)], [c |-> "piece", n |-> B8(128)],
   [c |-> "bit_piece", bits |-> B8(1), bitoff |-> B8(0)], [c |-> "bit_piece", bits |-> B8(128), bitoff |-> B8(300)],
